@@ -14,7 +14,8 @@ of that counter it may still perform = matching deliveries left in its script + 
 the sum of the weights never exceeds the counter, so truncated subtraction never bites, and the thread that obtains 0 is
 unique. Inequalities (instead of equalities) make thread death (panic, disposal) harmless.
 -/
-namespace Cb.Combine
+namespace Cb.CombinePar
+open Cb Cb.Combine
 open Cb
 
 /-! ## Statement vocabulary -/
@@ -338,6 +339,6 @@ theorem combine_par_panics :
     (fun s => s.obs.panics == 1) (by decide)
   exact ⟨s, hr, by simpa using hp⟩
 
-end Cb.Combine
-#print axioms Cb.Combine.combine_par_counts_partial
-#print axioms Cb.Combine.combine_par_panics
+end Cb.CombinePar
+#print axioms Cb.CombinePar.combine_par_counts_partial
+#print axioms Cb.CombinePar.combine_par_panics
